@@ -8,7 +8,7 @@ use crate::model::{F, MV};
 use proptest::prelude::*;
 use serde::{Deserialize, Serialize};
 
-pub const RULE: &str = "number lists of length 1..50 (small integers, fractions, negatives, duplicates, +-0, +-inf, magnitudes up to 1e308 and down to subnormals, whole numbers around the 32- and 64-bit integer limits; no NaN) with two percentile ranks p1<=p2 in [0,100] (0, 50, 100 and random) and a permutation; every aggregate is evaluated as f(list), f(...list), f(x1, .., xn), with the arguments cut into several spreads with empty spreads before, between and after them (and f([x]) vs f(x)) and compared with Rust reference computations on the same doubles. Non-trivial = length >= 2 with at least two distinct elements; distinct by the list's bit patterns.";
+pub const RULE: &str = "number lists of length 1..50 (small integers, fractions, negatives, duplicates, +-0, +-inf, magnitudes up to 1e308 and down to subnormals, whole numbers around the 32- and 64-bit integer limits; no NaN) with two percentile ranks p1<=p2 in [0,100] (0, 50, 100 and random) and a permutation; every aggregate is evaluated as f(list), f(...list), f(x1, .., xn), with the arguments cut into several spreads with empty spreads before, between and after them (and f([x]) vs f(x)) and compared with Rust reference computations on the same doubles. Non-trivial = length >= 2 with at least two distinct elements; distinct by the list's bit patterns. In a third of the cases every aggregate is evaluated right after an aggregate call that was rejected part-way through (a non-number inside a list, among separate arguments or in a spread): the definitions hold whatever ran before.";
 pub const ASSUMPTIONS: &[&str] = &[
     "sum / prod / avg are held to a rounding bound (n*eps*sum|x|, resp. relative n*eps) only where no partial result over- or underflows; otherwise only the result class is checked, because the order of operations then legitimately matters",
     "median of an even-length list must lie between the two middle order statistics (inclusive) and equal (a+b)/2, a/2+b/2 or a+(b-a)/2 computed in IEEE doubles; with an infinite middle value it is that infinity (NaN for -inf and +inf)",
@@ -141,7 +141,23 @@ impl Check for Aggregates {
         }
         let eps = f64::EPSILON;
         let literal_args: String = xs.iter().map(|x| num_source(*x, false)).collect::<Vec<_>>().join(", ");
-        for agg in ["sum", "prod", "avg", "min", "max", "median"] {
+        // history: in a third of the cases every aggregate is evaluated right after an aggregate call
+        // that was rejected part-way through its arguments (the definitions hold whatever ran before)
+        let after_rejected = c.perm % 3 == 0;
+        if after_rejected {
+            ctx.label("after-rejected-aggregate-call");
+        }
+        for (k, agg) in ["sum", "prod", "avg", "min", "max", "median"].into_iter().enumerate() {
+            if after_rejected {
+                let other = ["sum", "max", "median", "avg", "min", "prod", "percentile"][(c.perm as usize / 3 + k) % 7];
+                let bad = match (c.perm as usize / 21 + k) % 4 {
+                    0 => format!("{}([1000, \"a\"]{})", other, if other == "percentile" { ", 50" } else { "" }),
+                    1 if other != "percentile" => format!("{}(1000, null, 3)", other),
+                    2 if other != "percentile" => format!("{}(...[1000, 2000, true])", other),
+                    _ => format!("{}([1000, 2000, [3]]{})", other, if other == "percentile" { ", 50" } else { "" }),
+                };
+                let _ = sess.obs(&bad);
+            }
             let v_list = getnum(&sess.probe(&format!("{}(l)", agg)));
             let v_spread = getnum(&sess.probe(&format!("{}(...l)", agg)));
             let v_args = getnum(&sess.obs(&format!("{}({})", agg, literal_args)));
